@@ -222,16 +222,8 @@ theorem closePc1_inv3 (s : State) (p : Nat) (hi : Inv s) (h3 : Inv3 s) : Inv3 (c
         · rw [if_neg e]
           exact hcq.transfer (Or.inl rfl) (fun x => x) (Nat.le_refl _) rfl rfl rfl
 
-theorem closePc_inv3 (s : State) (p : Nat) (hi : Inv s) (h3 : Inv3 s) : Inv3 (closePc s p) := by
-  unfold closePc
-  split
-  · exact h3
-  · split
-    · exact h3
-    · dsimp only
-      split
-      · exact closePc1_inv3 _ _ (closePc1_inv _ _ hi) (closePc1_inv3 _ _ hi h3)
-      · exact closePc1_inv3 _ _ hi h3
+theorem closePc_inv3 (s : State) (p : Nat) (hi : Inv s) (h3 : Inv3 s) : Inv3 (closePc s p) :=
+  closePc1_inv3 s p hi h3
 
 theorem closePcsWhere_inv3 (sel : PConn → Bool) (s : State) (hi : Inv s) (h3 : Inv3 s) :
     Inv3 (closePcsWhere sel s) := by
